@@ -13,18 +13,18 @@ import (
 
 // Site is one place in a base configuration where an invalid value can be put.
 type Site struct {
-	Idx    int
-	Path   string     // concrete path, e.g. transformations[0].cases[1].match{host}
-	Kind   string     // site-kind path (stable class), e.g. drop.match{k}
-	Class  string     // data class: fieldref, template, xpattern, ...
-	Node   *yaml.Node // the node that is replaced (value sites), the key node (key sites) or the mapping (pair sites)
-	Parent *yaml.Node // parent node (mapping or sequence)
-	Pos    int        // index of Node (or of the key, for pair sites) in Parent.Content
-	Owner  string     // nearest enclosing typed mapping's type (extractHead, byKeySet, fluentdForward, ...)
-	Op     string     // match values: the operator tag (!!str, !!glob, ...)
-	Var    string     // templates: a variable name that is valid at this site ("" if none)
-	Scalars bool      // sequences: elements are scalars
-	InOutput bool     // under outputBufferPairs: instantiate with the real forwarders
+	Idx      int
+	Path     string     // concrete path, e.g. transformations[0].cases[1].match{host}
+	Kind     string     // site-kind path (stable class), e.g. drop.match{k}
+	Class    string     // data class: fieldref, template, xpattern, ...
+	Node     *yaml.Node // the node that is replaced (value sites), the key node (key sites) or the mapping (pair sites)
+	Parent   *yaml.Node // parent node (mapping or sequence)
+	Pos      int        // index of Node (or of the key, for pair sites) in Parent.Content
+	Owner    string     // nearest enclosing typed mapping's type (extractHead, byKeySet, fluentdForward, ...)
+	Op       string     // match values: the operator tag (!!str, !!glob, ...)
+	Var      string     // templates: a variable name that is valid at this site ("" if none)
+	Scalars  bool       // sequences: elements are scalars
+	InOutput bool       // under outputBufferPairs: instantiate with the real forwarders
 }
 
 type fieldSpec struct {
